@@ -543,12 +543,16 @@ class HyperscanTokenizer(Tokenizer):
             if start in byte_to_str_offset and end in byte_to_str_offset:
                 start = byte_to_str_offset[start]
                 end = byte_to_str_offset[end]
-                m = extractor.compiled_regex.match(text[start:end])
-                if m is None:
+                # match in place rather than on the substring, so that "^"
+                # and "$" cannot match at the edges of the hit instead of
+                # its boundary characters
+                m = extractor.compiled_regex.match(text, start)
+                if m is None or m.end() != end:
                     # hyperscan's byte-based character classes can accept
-                    # text that the unicode-aware python regex rejects
+                    # text that the unicode-aware python regex rejects, and
+                    # it reports every possible end of a match
                     continue
-                yield extractor.get_token(m, offset=start)
+                yield extractor.get_token(m)
 
     @property
     def hyperscan_db(self):
